@@ -9,7 +9,7 @@ from __future__ import annotations
 
 import ast
 
-from ..core import src, AnalysisError, parent, guards_of
+from ..core import src, AnalysisError, parent, guards_of, contains
 from ..resolve import Program, inline_locals, expand
 from .. import units as U
 from ..bufflow import Sym
@@ -204,8 +204,33 @@ def enclosing(n):
 
 
 # ------------------------------------------------------------------ gather geometry
+GATHER_TEMPLATE = """
+idx_d, idx_s = self.getAxes(layout_dest, layout_source)
+comm = self._managers[self._handlers[layout_source.name]].communicators[idx_s]
+mpi_size = comm.Get_size()
+blockShape = list(layout_source.shape)
+blockShape[idx_s] = layout_source.max_block_shape[idx_s]
+blockSize = np.prod(blockShape)
+sourceView = np.split(source, [blockSize])[0]
+destView = np.split({recv}, [blockSize * mpi_size])[0]
+comm.Allgather((sourceView, MPI.DOUBLE), (destView, MPI.DOUBLE))
+blocks = np.split({recv}, blockSize * np.arange(1, mpi_size + 1))
+destView = np.split({out}, [layout_dest.size])[0].reshape(layout_dest.shape)
+slices = [slice(x) for x in layout_dest.shape]
+transposition = [layout_source.dims_order.index(i) for i in layout_dest.dims_order]
+for i, b in enumerate(blocks[:-1]):
+    blockShape = list(layout_source.shape)
+    blockShape[idx_s] = layout_source.mpi_lengths(idx_s)[i]
+    blockSize = np.prod(blockShape)
+    slices[idx_d] = slice(layout_source.mpi_starts(idx_s)[i], layout_source.mpi_starts(idx_s)[i] + layout_source.mpi_lengths(idx_s)[i])
+    block = np.split(b, [blockSize])[0].reshape(blockShape)
+    destView[tuple(slices)] = np.transpose(block, transposition)
+"""
+
+
 def gather_geometry(chk, mod, q, recv_name):
-    """Allgather of padded blocks; unpack with the sender's true block shape."""
+    """Allgather of padded blocks; unpack with the sender's true block shape (template with metavariables)."""
+    from ..core import find
     rel = mod.rel
     fn = mod.func(q)
     ag = [c for c in ast.walk(fn) if isinstance(c, ast.Call) and isinstance(c.func, ast.Attribute)
@@ -216,170 +241,103 @@ def gather_geometry(chk, mod, q, recv_name):
     chk.ob("R1-symmetric-replication", c, src(c)[:100], c.func.attr == "Allgather",
            "the gather is an Allgather: every rank of the communicator receives all blocks (replicas identical)"
            if c.func.attr == "Allgather" else f"`{c.func.attr}` does not deliver the blocks to every rank", file=rel, func=q)
-    # the arm containing the Allgather
-    arm = parent(enclosing(c))
-    body = arm.orelse if enclosing(c) in getattr(arm, "orelse", []) else arm.body
-    sub = ast.FunctionDef(name="_arm", args=fn.args, body=body, decorator_list=[], lineno=fn.lineno)
-    sf = ShapeFlow(sub)
-    env = {}
-    for n in body:
-        if isinstance(n, ast.Assign) and isinstance(n.targets[0], ast.Name):
-            env.setdefault(n.targets[0].id, []).append(n)
-    # send view: np.split(source, [blockSize])[0]; recv view: np.split(<recv>, [blockSize*mpi_size])[0]
-    def first_def(name):
-        return env[name][0].value if name in env else None
-    sv = first_def("sourceView")
-    dv = first_def("destView")
-    oksend = sv is not None and src(sv).replace(" ", "") == "np.split(source,[blockSize])[0]"
-    okrecv = dv is not None and src(dv).replace(" ", "") == f"np.split({recv_name},[blockSize*mpi_size])[0]"
-    mpi = first_def("mpi_size")
-    okmpi = mpi is not None and src(mpi) == "comm.Get_size()"
-    sargs = src(c.args[0]).replace(" ", "") if c.args else ""
-    rargs = src(c.args[1]).replace(" ", "") if len(c.args) > 1 else ""
-    okargs = sargs.startswith("(sourceView,") and rargs.startswith("(destView,")
-    # blockSize snapshot before the Allgather
-    ok_block = False
-    detail = ""
-    if "blockSize" in sf.prods:
-        pass
-    # first product assignment to blockSize (the padded one)
-    firstprod = None
-    for n in body:
-        if isinstance(n, ast.Assign) and isinstance(n.targets[0], ast.Name) and n.targets[0].id == "blockSize":
-            firstprod = n
-            break
-    sf0 = ShapeFlow(ast.FunctionDef(name="_pre", args=fn.args, body=body[:body.index(firstprod) + 1] if firstprod else [],
-                                     decorator_list=[], lineno=fn.lineno))
-    if "blockSize" in sf0.prods:
-        sl = sf0.prods["blockSize"][0]
-        ok_block = sl.base == "layout_source.shape" and sl.over == {"idx_s": "layout_source.max_block_shape[idx_s]"}
-        detail = f"{sl.base} with {sl.over}"
-    chk.ob("G4-gather-geometry", c, src(c)[:100], oksend and okrecv and okmpi and okargs and ok_block,
-           "every rank sends one block padded to max_block_shape along the scattered axis and receives "
-           "communicator-size such blocks (uniform counts)" if oksend and okrecv and okmpi and okargs and ok_block else
-           f"send view ok={oksend}, recv view ok={okrecv}, mpi_size ok={okmpi}, args ok={okargs}, padded block ok={ok_block} ({detail})",
-           file=rel, func=q)
-    # unpack loop: true block shape of the sender
-    loops = [n for n in body if isinstance(n, ast.For)]
-    if len(loops) != 1:
-        raise AnalysisError(f"C03: unpack loop not found in gather arm of {q}")
-    lp = loops[0]
-    okiter = src(lp.iter).replace(" ", "") == "enumerate(blocks[:-1])"
-    bl = first_def("blocks")
-    okblocks = bl is not None and src(bl).replace(" ", "") == f"np.split({recv_name},blockSize*np.arange(1,mpi_size+1))"
-    ivar = lp.target.elts[0].id if isinstance(lp.target, ast.Tuple) and isinstance(lp.target.elts[0], ast.Name) else None
-    bvar = lp.target.elts[1].id if isinstance(lp.target, ast.Tuple) and isinstance(lp.target.elts[1], ast.Name) else None
-    lsf = ShapeFlow(ast.FunctionDef(name="_loop", args=fn.args, body=lp.body, decorator_list=[], lineno=lp.lineno))
-    blockdef = None
-    for n in lp.body:
-        if isinstance(n, ast.Assign) and isinstance(n.targets[0], ast.Name) and n.targets[0].id == "block":
-            blockdef = n
-    ok_true = None
-    why = "no `block = <chunk>.reshape(<shape list>)` in the unpack loop"
-    if blockdef is not None:
-        rs = [c2 for c2 in ast.walk(blockdef.value) if isinstance(c2, ast.Call) and isinstance(c2.func, ast.Attribute)
-              and c2.func.attr == "reshape" and c2.args and isinstance(c2.args[0], ast.Name)]
-        if len(rs) == 1:
-            v = rs[0]
-            shp = v.args[0].id
-            sl = lsf.lists.get(shp)
-            inner = src(v.func.value).replace(" ", "")
-            want = {"idx_s": f"layout_source.mpi_lengths(idx_s)[{ivar}]"}
-            if sl is None:
-                sl0 = sf.lists.get(shp)
-                if sl0 is not None and sl0.base == "layout_source.shape" and "max_block_shape" in "".join(sl0.over.values()):
-                    ok_true = False
-                    why = (f"the received chunk of rank i is viewed with the padded block shape `{shp}` {sl0.over}; the sender's "
-                           "block is contiguous in its true shape, so for uneven blocks elements are mis-assigned unless "
-                           "the gathered axis is the leading one")
-                else:
-                    why = f"cannot identify the shape list `{shp}` used to view the received chunk"
-            elif sl.base == "layout_source.shape" and sl.over == want:
-                okv = inner == f"np.split({bvar},[blockSize])[0]" and "blockSize" in lsf.prods and \
-                    lsf.prods["blockSize"][0].over == want and blockdef.value is v
-                ok_true = True if okv else None
-                why = "received chunk of rank i is cut to and viewed with the sender's true block shape (mpi_lengths(idx_s)[i])" \
-                    if okv else f"true-shape view recognised but the chunk cut `{inner}` is not `np.split(b, [blockSize])[0]`"
-            else:
-                ok_true = False if "max_block_shape" in "".join(sl.over.values()) else None
-                why = f"block shape overrides {sl.over} are not the sender's true lengths"
-        else:
-            why = f"unrecognised block view `{src(blockdef.value)[:60]}`"
-    chk.ob("G4-unpack-true-shape", blockdef or lp, src(blockdef)[:100] if blockdef else "unpack loop",
-           (ok_true and okiter and okblocks) if ok_true is not False else False,
-           why + ("" if okiter and okblocks else f"; loop iter ok={okiter}, blocks ok={okblocks}"), file=rel, func=q)
-    # placement: slices[idx_d] = slice(src.mpi_starts(idx_s)[i], +lengths)
-    place = None
-    for n in lp.body:
-        if isinstance(n, ast.Assign) and isinstance(n.targets[0], ast.Subscript) and src(n.targets[0].value) == "slices":
-            place = n
-    okp = place is not None and src(place.targets[0].slice) == "idx_d" and src(place.value).replace(" ", "") == \
-        f"slice(layout_source.mpi_starts(idx_s)[{ivar}],layout_source.mpi_starts(idx_s)[{ivar}]+layout_source.mpi_lengths(idx_s)[{ivar}])"
-    sdef = first_def("slices")
-    okp = okp and sdef is not None and src(sdef).replace(" ", "") in ("[slice(x)forxinlayout_dest.shape]", "[slice(n)forninlayout_dest.shape]")
-    chk.ob("G4-unpack-placement", place or lp, src(place)[:110] if place else "unpack loop", okp,
-           "block of rank i is placed at [start_i, start_i+len_i) of the source partition along the gathered axis of the destination"
-           if okp else "placement slice does not use the source layout's (start, length) of rank i at the destination axis",
-           file=rel, func=q)
+    out = "source" if recv_name == "dest" else "dest"
+    tmpl = GATHER_TEMPLATE.format(recv=recv_name, out=out)
+    bind = find(fn, tmpl, vars=("x",))
+    ok = bind is not None
+    what = ("every rank sends one block padded to max_block_shape along the scattered axis and receives communicator-size such "
+            "blocks (uniform counts); the chunk of rank i is cut to and viewed with the sender's true block shape "
+            "(mpi_lengths(idx_s)[i]) and placed at [start_i, start_i+len_i) of the source partition along the gathered axis")
+    bad = None
+    if not ok:
+        # recognised wrong forms
+        arm = parent(enclosing(c))
+        body = arm.orelse if enclosing(c) in getattr(arm, "orelse", []) else arm.body
+        loops = [n for n in body if isinstance(n, ast.For)]
+        for lp in loops:
+            for n in ast.walk(lp):
+                if isinstance(n, ast.Call) and isinstance(n.func, ast.Attribute) and n.func.attr == "reshape" and n.args \
+                        and isinstance(n.args[0], ast.Name):
+                    shp = n.args[0].id
+                    inloop = [a_ for a_ in ast.walk(lp) if isinstance(a_, ast.Assign) and isinstance(a_.targets[0], ast.Subscript)
+                              and src(a_.targets[0].value) == shp]
+                    outer = [a_ for a_ in body if isinstance(a_, ast.Assign) and isinstance(a_.targets[0], ast.Subscript)
+                             and src(a_.targets[0].value) == shp and "max_block_shape" in src(a_.value)]
+                    if not inloop and outer:
+                        bad = (f"the received chunk of rank i is viewed with the padded block shape `{shp}` ({src(outer[0])}); the sender's "
+                               "block is contiguous in its true shape, so for uneven blocks elements are mis-assigned unless the gathered "
+                               "axis is the leading one")
+            for n in ast.walk(lp):
+                if isinstance(n, ast.Call) and isinstance(n.func, ast.Attribute) and n.func.attr in ("mpi_lengths", "mpi_starts") \
+                        and src(n.func.value) == "layout_dest":
+                    bad = f"the unpack loop uses `{src(n)}`: blocks were cut by the source layout's partition, not the destination's"
+    chk.pat("G4-gather-geometry", c, f"gather arm of {q.split('.')[-1]}", ok, what, bad, file=rel, func=q)
+
+
+SCATTER_TEMPLATE = """
+idx_s, idx_d = self.getAxes(layout_source, layout_dest)
+comm = self._managers[self._handlers[layout_dest.name]].communicators[idx_d]
+rank = comm.Get_rank()
+start = layout_dest.mpi_starts(idx_d)[rank]
+length = layout_dest.mpi_lengths(idx_d)[rank]
+sourceSlice = [slice(n) for n in layout_source.shape]
+sourceSlice[idx_s] = slice(start, start + length)
+transposition = [layout_source.dims_order.index(i) for i in layout_dest.dims_order]
+destView[:] = np.transpose(sourceView[tuple(sourceSlice)], transposition)
+"""
 
 
 def scatter_geometry(chk, mod, q):
+    from ..core import find
     rel = mod.rel
     fn = mod.func(q)
-    env = inline_locals(fn)
-    # find the scatter arm: contains comm.Get_rank()
-    arms = [n for n in ast.walk(fn) if isinstance(n, ast.If)]
-    target = None
-    for a in arms:
-        for body in (a.body, a.orelse):
-            if any(isinstance(c, ast.Call) and isinstance(c.func, ast.Attribute) and c.func.attr == "Get_rank"
-                   for s in body for c in ast.walk(s)) and \
-                    not any(isinstance(s, ast.If) for s in body):
-                target = body
-    if target is None:
-        raise AnalysisError(f"C03: scatter arm (Get_rank) not found in {q}")
-    d = {}
-    for n in target:
-        if isinstance(n, ast.Assign) and isinstance(n.targets[0], ast.Name):
-            d[n.targets[0].id] = src(n.value).replace(" ", "")
-        if isinstance(n, ast.Assign) and isinstance(n.targets[0], ast.Subscript):
-            d[src(n.targets[0]).replace(" ", "")] = src(n.value).replace(" ", "")
-    ok = d.get("rank") == "comm.Get_rank()" and d.get("start") == "layout_dest.mpi_starts(idx_d)[rank]" and \
-        d.get("length") == "layout_dest.mpi_lengths(idx_d)[rank]" and \
-        d.get("sourceSlice[idx_s]") == "slice(start,start+length)" and \
-        d.get("sourceSlice") in ("[slice(n)forninlayout_source.shape]", "[slice(x)forxinlayout_source.shape]")
-    chk.ob("G4-scatter-slice", fn, "scatter arm of " + q.split(".")[-1], ok,
-           "the local slice is [start_r, start_r+len_r) of the destination partition, for this rank's coordinate on the "
-           "destination communicator, taken along the source axis of the scattered dimension" if ok else
-           f"unexpected scatter slice: {d}", file=rel, func=q)
+    b = find(fn, SCATTER_TEMPLATE, vars=("n", "sourceView", "destView"))
+    bad = None
+    if b is None:
+        for n in ast.walk(fn):
+            if isinstance(n, ast.Call) and isinstance(n.func, ast.Attribute) and n.func.attr == "Get_rank":
+                arm = enclosing(n)
+                blk = parent(arm)
+                body = blk.body if arm in getattr(blk, "body", []) else getattr(blk, "orelse", [])
+                txt = "".join(src(x) for x in body)
+                if "layout_source.mpi_starts" in txt or "layout_source.mpi_lengths" in txt:
+                    bad = "the scatter slice is taken from the source layout's partition table: the local block is defined by the destination's"
+    chk.pat("G4-scatter-slice", fn, "scatter arm of " + q.split(".")[-1], b is not None,
+            "the local slice is [start_r, start_r+len_r) of the destination partition, for this rank's coordinate on the "
+            "destination communicator, taken along the source axis of the scattered dimension", bad, file=rel, func=q)
+
+
+INIT_GATHER_TEMPLATE = """
+blockShape1 = list(l1.shape)
+blockShape1[idx_1] = l1.max_block_shape[idx_1]
+blockSize1 = np.prod(blockShape1)
+blockShape2 = list(l2.shape)
+blockShape2[idx_2] = l2.max_block_shape[idx_2]
+blockSize2 = np.prod(blockShape2)
+if blockSize1 > blockSize2:
+    comm = h2.communicators[idx_2]
+    mpi_size = comm.Get_size()
+    self._buffer_size = max(self._buffer_size, blockSize2 * mpi_size)
+else:
+    comm = h1.communicators[idx_1]
+    mpi_size = comm.Get_size()
+    self._buffer_size = max(self._buffer_size, blockSize1 * mpi_size)
+"""
 
 
 def init_buffer(chk, mod):
     """advertised size covers every handler's size and every gather's receive size"""
+    from ..core import find
     rel = mod.rel
     q = "LayoutSwapper.__init__"
     fn = mod.func(q)
-    env = {}
-    s = src(fn)
-    ok1 = "self._buffer_size = max(buffSize)" in s and "buffSize = [x.bufferSize for x in self._managers]" in s
-    chk.ob("G4-bufsize-handlers", fn, "self._buffer_size = max(buffSize)", ok1,
-           "swapper buffer covers the largest handler buffer", file=rel, func=q)
-    sf = ShapeFlow(fn)
-    b1 = sf.prods.get("blockSize1")
-    b2 = sf.prods.get("blockSize2")
-    okb = b1 is not None and b2 is not None and b1[0].base == "l1.shape" and b1[0].over == {"idx_1": "l1.max_block_shape[idx_1]"} \
-        and b2[0].base == "l2.shape" and b2[0].over == {"idx_2": "l2.max_block_shape[idx_2]"}
-    # the smaller block belongs to the scattered side; receive size = that block x its communicator size
-    ifs = [n for n in ast.walk(fn) if isinstance(n, ast.If) and src(n.test).replace(" ", "").strip("()") == "blockSize1>blockSize2"]
-    okc = False
-    if ifs:
-        a = src(ifs[0]).replace(" ", "").replace("\n", "")
-        okc = "comm=h2.communicators[idx_2]" in a and "max(self._buffer_size,blockSize2*mpi_size)" in a and \
-            "comm=h1.communicators[idx_1]" in a and "max(self._buffer_size,blockSize1*mpi_size)" in a and \
-            a.count("mpi_size=comm.Get_size()") == 2
-    chk.ob("G4-bufsize-gather", ifs[0] if ifs else fn, "gather receive size in __init__", okb and okc,
-           "buffer covers (padded scattered block) x (size of the scattered side's communicator) for every gather pair"
-           if okb and okc else f"blocks ok={okb}, communicator/size ok={okc}", file=rel, func=q)
+    ok1 = contains(fn, "buffSize = [x.bufferSize for x in self._managers]\nself._buffer_size = max(buffSize)", vars=("x",))
+    chk.pat("G4-bufsize-handlers", fn, "self._buffer_size = max(buffSize)", ok1, "swapper buffer covers the largest handler buffer",
+            file=rel, func=q)
+    ok2 = find(fn, INIT_GATHER_TEMPLATE, vars=("l1", "l2", "h1", "h2", "idx_1", "idx_2")) is not None
+    chk.pat("G4-bufsize-gather", fn, "gather receive size in __init__", ok2,
+            "buffer covers (padded scattered block) x (size of the scattered side's communicator) for every gather pair",
+            file=rel, func=q)
 
 
 def run(chk):
@@ -410,15 +368,32 @@ def run(chk):
     scatter_geometry(chk, mod, "LayoutSwapper._transpose_source_intact")
     init_buffer(chk, mod)
     permcheck.check_layout_swapper(chk, mod)
+    # the cached route map is only read by the transposes
+    from .. import lints
+    for q in (f"{CLS}.transpose", f"{CLS}._transposeRedirect", f"{CLS}._transposeRedirect_source_intact"):
+        f_ = mod.func(q)
+        muts = lints.shared_state_mutations(f_, lambda s_: s_.startswith("self._route_map") or s_.startswith("self._layouts") or s_.startswith("self._handlers"))
+        chk.ob("G2-no-shared-mutation", f_, f"{q} vs the cached route map", not muts,
+               "the route map and layout tables are only read" if not muts else "; ".join(d for _, d in muts) +
+               " - the stored route is shortened/changed by a transpose: the next transpose between the same layouts takes a wrong route",
+               file=U.LAYOUT, func=q)
     # getAxes itself: returns (position in gathered ordering of the scattered dimension, scattered axis)
     ga = mod.func("LayoutSwapper.getAxes")
-    s = src(ga).replace(" ", "").replace("\n", "")
-    okga = "idx_g=layout_gathered.dims_order.index(layout_scattered.dims_order[idx_s])" in s and "return(idx_g,idx_s)" in s \
-        and "possComms=list(handlerS.communicators)" in s and "forcinhandlerG.communicators:" in s
-    chk.ob("A1-getaxes-definition", ga, "getAxes", okga,
-           "returns (axis of the gathered layout carrying the scattered dimension, process axis of the scattered handler "
-           "whose communicator the gathered handler lacks)" if okga else "getAxes no longer has the recognised definition",
-           file=U.LAYOUT, func="LayoutSwapper.getAxes")
+    okga = contains(ga, """
+handlerG = self._managers[self._handlers[layout_gathered.name]]
+handlerS = self._managers[self._handlers[layout_scattered.name]]
+possComms = list(handlerS.communicators)
+for c in handlerG.communicators:
+    if c in possComms:
+        i = possComms.index(c)
+        possComms[i] = None
+idx_s = np.nonzero(np.array(possComms) != None)[0][0]
+idx_g = layout_gathered.dims_order.index(layout_scattered.dims_order[idx_s])
+return (idx_g, idx_s)
+""")
+    chk.pat("A1-getaxes-definition", ga, "getAxes", okga,
+            "returns (axis of the gathered layout carrying the scattered dimension, process axis of the scattered handler "
+            "whose communicator the gathered handler lacks)", file=U.LAYOUT, func="LayoutSwapper.getAxes")
     chk.floor("D2-result-in-dest", 14)
     chk.floor("M1-current-manager", 14)
     chk.floor("A1-index-ownership", 16)
